@@ -60,7 +60,7 @@ FORMATS = {
     "iso9660": dict(seekable=True, codes={0x40001}, types=[REG, DIR, LNK, CHR, BLK, FIFO, SOCK], names="tree", linkmax=200, idmax=2**32 - 1,
                     tmax=2**32 - 1, fields={"pathname", "symlink", "perm", "filetype", "uid", "gid", "size", "mtime", "rdev"},
                     order="set", devmax=2**31 - 1, root=True, options=[b"iso9660:rockridge=strict", b"iso9660:rockridge=strict,joliet", b"iso9660:rockridge=strict,zisofs=direct",
-                                                                    b"iso9660:rockridge=strict,iso-level=4"]),
+                                                                    b"iso9660:rockridge=strict,iso-level=4", b"iso9660:rockridge=strict,iso-level=2", b"iso9660:rockridge=strict,iso-level=3"]),
     "mtree":   dict(codes={0x80000}, types=[REG, DIR, LNK, CHR, BLK, FIFO], names="tree", linkmax=400, idmax=2**62, tmax=2**40,
                     ugmax=100, nobody=True,
                     fields={"pathname", "symlink", "uname", "gname", "perm", "filetype", "uid", "gid", "size", "mtime", "mtime_ns", "rdev"},
@@ -117,7 +117,11 @@ def sibling_family(r, kind=None):
     """names that a directory-oriented writer (iso9660 level 1-4 and Joliet identifiers, 8.3 style truncation) maps to the
     SAME identifier, so that its duplicate resolver has to rename them: characters the target set lacks, case
     differences, a common prefix longer than the identifier"""
-    kind = r.randrange(5) if kind is None else kind
+    kind = r.randrange(6) if kind is None else kind
+    if kind == 5:       # next to nothing in front of a long extension, identifier of full length
+        stem = r.choice([b"k.", b"ab.", b"abcd.", b"k.x."])
+        w = stem + rname(r, r.choice([40, 62, 70, 110, 130, 200])).replace(b".", b"y")
+        return [w + sfx for sfx in (b"", b"1", b"2.c")]
     if kind == 0:       # one or two characters, all replaced by '_'
         stem = r.choice([b"", b"a", b"Z"])
         return [stem + c for c in r.sample([b"?", b"*", b":", b";", b"\\", b'"', b"<", b">", b"|"], r.choice([2, 3, 5]))]
@@ -317,7 +321,7 @@ def gen_cases(rep):
         # directed: every kind of sibling family (names the writer's duplicate resolver has to rename), in the root
         # and in a sub-directory, under every option set of the directory-oriented formats
         if spec["names"] == "tree":
-            for kind in range(5):
+            for kind in range(6):
                 for opts in spec.get("options", [b""]):
                     fam = sorted(set(sibling_family(r, kind)))      # (the same pathname twice is not a round-trip question)
                     es = [dict(mode=DIR | 0o755, nlink=1, path=b"sub", uid=0, gid=0, mtime=(10**9, 0), size=0, body=b"", chunks=())]
@@ -423,8 +427,8 @@ def check_round1(meta, iv):
         where = ("filter-" + meta["flt"]) if (meta["flt"] and len(rd[2]) == 0 and len(es) > 0) else fmt
         return ("C02:%s:read-error" % where, "%s (bytes_per_block %d, bytes_in_last_block %d): reading the archive back ends with %d (%s) after %d of %d entries" %
                 (tag, meta["bpb"], meta["bilb"], rd[3], rd[4].decode("latin1")[:70], len(rd[2]), len(es)))
-    if spec.get("single") and not es[0]["body"] and rd[0] == 0x60000:
-        return None          # an empty raw stream is the empty archive
+    if spec.get("single") and not es[0]["body"] and rd[0] in (0x60000, 0x30000):
+        return None          # an empty raw stream is the empty archive (behind some filters the tar reader claims it first)
     if rd[0] not in spec["codes"]:
         return ("C02:%s:format-detected" % (("filter-" + meta["flt"]) if meta["flt"] else fmt), "%s: archive detected as format 0x%x, written as %s" % (tag, rd[0], sorted(hex(c) for c in spec["codes"])))
     if rd[1] != meta["fcode"]:
